@@ -162,6 +162,13 @@ def gen_sources(rng):
     for fname in ("macros.inc", "macros.h"):
         for nm, body in placed[fname]:
             orig.setdefault(nm, []).append(body)
+    # block comments inside continued definitions, a continuation line that starts with an operator
+    files["macros.h"].append("#define fCMT1(A) do { \\\n    /* note */ cmt = A; \\\n    cmt2 = A + 1; \\\n} while (0)")
+    files["macros.h"].append("#define fCMT2(A) (A \\\n    + 2 \\\n    /* trailing note */ \\\n    )")
+    files["macros.inc"].append("#define fCMT3(A) ((A) \\\n    - 1)")
+    files["macros.inc"].append("#define fCMT4(A) ((A) \\\n    * 3)")
+    extra_eff = ["#define fCMT4(A) ((A) * 3)", "#define fCMT1(A) do { cmt = A; cmt2 = A + 1; } while (0)", "#define fCMT2(A) (A + 2 )", "#define fCMT3(A) ((A) - 1)"]
+    names_extra = ["fCMT1", "fCMT2", "fCMT3", "fCMT4"]
     # guarded block and comments
     files["macros.h"].insert(0, "/* a comment */\n#ifndef HEADER_H\n#define HEADER_H\n#include \"other.h\"")
     files["macros.h"].append("#ifdef QEMU_GENERATE\n#define fGEN(A) generate_only(A)\n#else\n#define fGEN(A) helper_only(A)\n#endif")
@@ -184,7 +191,7 @@ def gen_sources(rng):
     sc = ["#ifndef DEF_SHORTCODE", "#define DEF_SHORTCODE(TAG,SHORTCODE)    /* Nothing */", "#endif"]
     insns = []
     for k in range(rng.randint(8, 20)):
-        uses = " ".join(f"{rng.choice(names + ['fGEN', 'fVEC', 'fUSERONLY'])}({rng.choice(['RsV', 'RtV + 1', 'uiV'])});" for _ in range(rng.randint(1, 3)))
+        uses = " ".join(f"{rng.choice(names + names_extra + ['fGEN', 'fVEC', 'fUSERONLY'])}({rng.choice(['RsV', 'RtV + 1', 'uiV'])});" for _ in range(rng.randint(1, 3)))
         sc.append(f"DEF_SHORTCODE(G{k}_op, {{ {uses} RdV = OBJ_CONST; }})")
         insns.append(f"G{k}_op")
     out_files = {k: "\n".join(v) + "\n" for k, v in files.items()}
@@ -198,6 +205,7 @@ def gen_sources(rng):
         if nm not in patches:
             eff.append(f"#define {nm}(A) {orig[nm][-1]}")
     eff.append("#define OBJ_CONST 42")
+    eff.extend(extra_eff)
     eff.append("#define fGEN(A) helper_only(A)")
     eff.append("#define fVEC(A) vec_generate(A)")
     return out_files, "\n".join(eff) + "\n", insns, set(patches), orig
